@@ -59,6 +59,9 @@ type Config struct {
 	// IRI handed over by the library then ends in a nil dereference inside
 	// the Actor method that passed it.
 	StrictNil bool `json:"strict_nil,omitempty"`
+	// CallbackErr makes every application callback return
+	// pub.ErrObjectRequired ("object") or pub.ErrTargetRequired ("target").
+	CallbackErr string `json:"callback_err,omitempty"`
 }
 
 // use touches the IRI arguments of an application call (see Config.StrictNil).
